@@ -370,8 +370,14 @@ class Ev:
             if kind == "classattr":
                 m = self.model.mods[owner.split(":")[0]]
                 return self.eval(f, {}, m)
+        if isinstance(v, str) and name in STR_METHODS:
+            return BoundLib(f"str.{name}", v)
+        if isinstance(v, Tup) and name in ("append", "index", "tolist", "extend", "count", "copy"):
+            return BoundLib(f"list.{name}", v)
         if isinstance(v, MatchV) and name in ("group", "groups"):
             return BoundLib(f"match.{name}", v)
+        if isinstance(v, ArrV) and name in ("astype", "copy"):
+            return BoundLib("identity_method", v)
         if isinstance(v, ArrV) and name == "shape":
             return Tup([sp.Symbol(f"dim{i}", positive=True, integer=True) for i in range(v.batch)] + [sp.Integer(x) for x in v.shape])
         if isinstance(v, ArrV) and name == "T" and len(v.shape) == 2 and v.batch == 0:
@@ -885,7 +891,6 @@ class Ev:
     def comp(self, n, env, mod, elt_fn):
         out = []
         flags = []
-        self._comp_flags = flags
 
         def rec(gens, env):
             if not gens:
@@ -902,6 +907,7 @@ class Ev:
                     rec(gens[1:], e2)
 
         rec(n.generators, env)
+        self._comp_flags = flags
         return out
 
     def e_ListComp(self, n, env, mod):
@@ -1201,6 +1207,13 @@ class Ev:
         else:
             self.exec_body(st.orelse, env, mod)
 
+    def s_With(self, st, env, mod):
+        for it in st.items:
+            v = self.eval(it.context_expr, env, mod)
+            if it.optional_vars is not None:
+                self.assign(it.optional_vars, v, env, mod)
+        self.exec_body(st.body, env, mod)
+
     def s_Continue(self, st, env, mod):
         raise _Continue()
 
@@ -1248,6 +1261,9 @@ class Ev:
         fn = LIB.get(name) or LIB.get(short)
         if fn is None:
             raise self.err(f"call to {name} has no transfer function (T-LIB)", n, mod)
+        bad = set(kwargs) - set(getattr(fn, "kw", ()))
+        if bad:
+            raise self.err(f"call to {name} with keyword(s) {sorted(bad)} the transfer function does not model", n, mod)
         return fn(self, args, kwargs, n, mod)
 
 
@@ -1316,6 +1332,9 @@ class Transposed(sp.Function):
 class MatMul(sp.Function):
     nargs = 2
 
+
+STR_METHODS = {"lower", "upper", "strip", "split", "startswith", "endswith", "join", "format", "rjust", "replace",
+               "lstrip", "rstrip", "isdigit"}
 
 BUILTINS = {"len", "range", "tuple", "list", "sorted", "zip", "map", "int", "float", "str", "sum", "abs", "min",
             "max", "round", "set", "dict", "enumerate", "isinstance", "next", "reversed", "any", "all", "open",
@@ -1422,7 +1441,13 @@ def lib_sorted(ev, a, k, n, mod):
         if isinstance(v, Tup) and all(is_sym(i) and i.is_number for i in v.items):
             return tuple(v.items)
         raise ev.err("sorted() of non-constants", n, mod)
-    return Tup(sorted(items, key=kf), "list")
+    rev = k.get("reverse", False)
+    if not isinstance(rev, bool):
+        raise ev.err("sorted(reverse=<non-constant>)", n, mod)
+    for kw in k:
+        if kw not in ("key", "reverse"):
+            raise ev.err(f"sorted() keyword {kw}", n, mod)
+    return Tup(sorted(items, key=kf, reverse=rev), "list")
 
 
 def lib_zip(ev, a, k, n, mod):
@@ -1730,3 +1755,102 @@ def _minmax(fn):
 
 
 LIB.update({"min": _minmax(min), "max": _minmax(max)})
+
+
+def lib_str_method(name):
+    def f(ev, a, k, n, mod):
+        s_, rest = a[0], a[1:]
+        args = []
+        for x in rest:
+            if isinstance(x, Tup):
+                x = [i if isinstance(i, str) else (int(i) if is_sym(i) and i.is_Integer else i) for i in x.items]
+                if name == "startswith" or name == "endswith":
+                    x = tuple(x)
+            elif is_sym(x) and x.is_Integer:
+                x = int(x)
+            elif not isinstance(x, (str, int)) and x is not None:
+                raise ev.err(f"str.{name} with a non-constant argument", n, mod)
+            args.append(x)
+        if name == "format" and (k or any(not isinstance(x, (str, int)) for x in args)):
+            kw = {}
+            for kk, vv in k.items():
+                if is_sym(vv) and vv.is_Integer:
+                    vv = int(vv)
+                if not isinstance(vv, (str, int)):
+                    raise ev.err("str.format with a non-constant argument", n, mod)
+                kw[kk] = vv
+            return s_.format(*args, **kw)
+        r = getattr(s_, name)(*args)
+        if isinstance(r, list):
+            return Tup(r, "list")
+        return r
+    return f
+
+
+for _m in STR_METHODS:
+    LIB[f"str.{_m}"] = lib_str_method(_m)
+
+
+def lib_list_append(ev, a, k, n, mod):
+    a[0].items.append(a[1])
+    return None
+
+
+def lib_list_index(ev, a, k, n, mod):
+    want = hkey(a[1])
+    for i, x in enumerate(a[0].items):
+        try:
+            if hkey(x) == want:
+                return sp.Integer(i)
+        except AnalysisError:
+            continue
+    raise RaisedV("ValueError")
+
+
+def lib_list_tolist(ev, a, k, n, mod):
+    return Tup(list(a[0].items), "list")
+
+
+def lib_next(ev, a, k, n, mod):
+    items = ev.iterate(a[0], n, mod)
+    if items:
+        return items[0]
+    if len(a) > 1:
+        return a[1]
+    raise RaisedV("StopIteration")
+
+
+def lib_any(ev, a, k, n, mod):
+    v = a[0]
+    if isinstance(v, bool):
+        return v
+    if isinstance(v, Tup):
+        return any(ev.truth(i, n, mod) for i in v.items)
+    raise ev.err("any() of a non-constant", n, mod)
+
+
+def lib_all(ev, a, k, n, mod):
+    v = a[0]
+    if isinstance(v, bool):
+        return v
+    if isinstance(v, Tup):
+        return all(ev.truth(i, n, mod) for i in v.items)
+    raise ev.err("all() of a non-constant", n, mod)
+
+
+def lib_enumerate(ev, a, k, n, mod):
+    return Tup([Tup([sp.Integer(i), x]) for i, x in enumerate(ev.iterate(a[0], n, mod))], "list")
+
+
+LIB.update({"identity_method": lambda ev, a, k, n, mod: a[0], "list.append": lib_list_append, "list.index": lib_list_index, "list.tolist": lib_list_tolist,
+            "list.copy": lib_list_tolist, "next": lib_next, "any": lib_any, "all": lib_all, "numpy.any": lib_any,
+            "numpy.all": lib_all, "enumerate": lib_enumerate})
+
+
+# keywords each transfer function models (anything else is an analysis error, never ignored)
+lib_prod.kw = {"axis"}
+lib_sorted.kw = {"key", "reverse"}
+lib_quantity.kw = {"units"}
+lib_allclose_unknown.kw = {"atol", "rtol"}
+lib_copy.kw = {"copy"}
+lib_getattr.kw = set()
